@@ -333,16 +333,35 @@ NamespacesHandler::addExtensionNamespaceURI(
 const XalanDOMString*
 NamespacesHandler::getNamespace(const XalanDOMString&   thePrefix) const
 {
-    const NamespacesVectorType::value_type*     theNamespace =
-        findByPrefix(m_excludedResultPrefixes, thePrefix);
+    // The element's own (in-scope) bindings come first: the declarations
+    // that will be written, then the excluded ones.  The excluded list also
+    // holds the entries inherited from the parent, which only say which
+    // namespace URIs are excluded; they come first in the list, so search
+    // it from the back.
+    const XalanDOMString* const     theURI =
+        findNamespace(m_namespaceDeclarations, thePrefix);
 
-    if (theNamespace != 0)
+    if (theURI != 0)
     {
-        return &theNamespace->getURI();
+        return theURI;
     }
     else
     {
-        return findNamespace(m_namespaceDeclarations, thePrefix);
+        NamespacesVectorType::const_reverse_iterator    i =
+                m_excludedResultPrefixes.rbegin();
+
+        const NamespacesVectorType::const_reverse_iterator  theEnd =
+                m_excludedResultPrefixes.rend();
+
+        for (; i != theEnd; ++i)
+        {
+            if ((*i).getPrefix() == thePrefix)
+            {
+                return &(*i).getURI();
+            }
+        }
+
+        return 0;
     }
 }
 
@@ -897,21 +916,39 @@ NamespacesHandler::copyExcludeResultPrefixes(const NamespacesVectorType&    theE
         }
         else
         {
+            // An excluded namespace stays excluded when its prefix is bound to
+            // another namespace here, so inherit every entry that is not
+            // already present with the same prefix and URI.  The inherited
+            // entries go in front of this element's own ones (see getNamespace()).
+            NamespacesVectorType    theInherited(m_excludedResultPrefixes.getMemoryManager());
+
             const NamespacesVectorType::const_iterator  theEnd =
                     theExcludeResultPrefixes.end();
 
             NamespacesVectorType::const_iterator    i =
                     theExcludeResultPrefixes.begin();
 
-            // Add them in...
             while(i != theEnd)
             {
-                if (findByPrefix(m_excludedResultPrefixes, (*i).getPrefix()) == 0)
+                const NamespacesVectorType::value_type* const   theEntry =
+                    findByPrefix(m_excludedResultPrefixes, (*i).getPrefix());
+
+                if (theEntry == 0 || theEntry->getURI() != (*i).getURI())
                 {
-                    m_excludedResultPrefixes.push_back(*i);
+                    theInherited.push_back(*i);
                 }
 
                 ++i;
+            }
+
+            if (theInherited.empty() == false)
+            {
+                theInherited.insert(
+                    theInherited.end(),
+                    m_excludedResultPrefixes.begin(),
+                    m_excludedResultPrefixes.end());
+
+                m_excludedResultPrefixes.swap(theInherited);
             }
         }
     }
